@@ -203,6 +203,28 @@ Theorem C09_neutral_npro_unchanged : forall (o : opts) (r : rstate),
   rs_n r = true -> term_prefix o C_PRO r = PN.
 Proof. exact term_prefix_pro. Qed.
 
+(* a residue that is BOTH ends of its chain (one-residue amino chain; it carries both
+   termini patches and takes the N name): --neutralc never changes its state, whatever
+   --neutraln is; --neutraln moves it N -> NEUTRAL-N (not PRO, N not already bonded to
+   two heavy atoms) whatever --neutralc is.  Each flag acts only through its own role *)
+Theorem C09_neutral_both_ends_attribution : forall (o : opts) (cls : aclass) (r : rstate),
+  rs_n r = true -> rs_c r = true ->
+  term_prefix (mkopts (o_neutraln o) true) cls r = term_prefix (mkopts (o_neutraln o) false) cls r
+  /\ (cls <> C_PRO -> rd_nheavy2 (rs_d r) = false ->
+      term_prefix (mkopts true (o_neutralc o)) cls r = PNN
+      /\ term_prefix (mkopts false (o_neutralc o)) cls r = PN).
+Proof. exact term_prefix_both_ends. Qed.
+
+(* ... and in the state table generated from the current set_state the rows of such a
+   residue that differ only in the C-terminal patch (T_N_C/T_N_NC, T_NN_C/T_NN_NC)
+   have the same state name and force-field residue: --neutralc cannot change which
+   parameters a both-ends residue receives *)
+Theorem C09_neutral_both_ends_same_parameters : forall r1 r2,
+  In r1 Generated.States.arows -> In r2 Generated.States.arows -> same_residue r1 r2 = true ->
+  c_only_pair (ar_term r1) (ar_term r2) = true ->
+  ar_name r1 = ar_name r2 /\ ar_ff r1 = ar_ff r2.
+Proof. exact (both_ends_table _ generated_both_ends_names). Qed.
+
 (* the row kinds of the generated state table carry exactly those name prefixes *)
 Theorem C09_neutral_rows_match_prefix : forall r, In r Generated.States.arows ->
   fst (ar_name r) = prefix_of_tkind (ar_cls r) (ar_term r).
@@ -265,3 +287,5 @@ Print Assumptions C09_neutral_shift.
 Print Assumptions C09_neutral_changes_only_termini.
 Print Assumptions C09_neutral_internal_unchanged.
 Print Assumptions C09_neutral_nonvacuous.
+Print Assumptions C09_neutral_both_ends_attribution.
+Print Assumptions C09_neutral_both_ends_same_parameters.
